@@ -138,14 +138,24 @@ OpName(r) == CASE r.a \in {"Binary", "Unary"} -> r.op
                [] r.a = "Edit" -> "setitem-" \o r.keykind
                [] r.a = "Read" -> r.view
                [] OTHER -> r.a
-Sig(r, bad, P) == r.cls \o ":" \o OpName(r) \o ":" \o bad[1] \o (IF P.stale THEN ":cached-before-setitem" ELSE "")
+\* the class named by a signature is the one that DEFINES the method the action calls (r.owner: the call site), so a defect of
+\* an inherited method has one signature whatever subclass exhibits it; the record and the replay file name the subclass
+Sig(r, bad, P) == r.owner \o ":" \o OpName(r) \o ":" \o bad[1] \o (IF P.stale THEN ":cached-before-setitem" ELSE "")
+                  \o (IF r.a = "Read" /\ HasMask(env) /\ env.nat THEN ":native-stored" ELSE "")
 
 Guarded(r) ==    \* records the step function can be applied to
     /\ r.x \in Slots /\ S[r.x].live
     /\ (r.a \in {"Binary", "InPlace"} /\ r.kind \in {"nd", "rnd", "obj"}) => S["b"].live
     /\ (r.a = "Edit") => Len(r.vv) > 0
     /\ (r.a = "Read" /\ r.view \in {"index", "tail"}) =>
-            (Len(r.arg) = 1 /\ r.arg[1] >= 0 /\ r.arg[1] < env.shape0)
+            (/\ Len(r.arg) = 1 /\ r.arg[1] >= 0 /\ r.arg[1] < env.shape0
+             /\ Len(S[r.x].st) >= env.shape0 /\ Len(S[r.x].st) % env.shape0 = 0)
+    \* views that go through the mask need an object that still has the stored shape of its mask
+    /\ (r.a = "Read" /\ r.view \in {"slim", "native", "apply_mask", "vy", "vx", "magnitudes", "amplitudes", "avgmag", "avgphi"}) =>
+            Len(S[r.x].st) = StoredLen(env)
+    /\ (r.a = "Read" /\ r.view = "apply_mask") => \A k \in DOMAIN r.arg : r.arg[k] \in USet(env)
+    /\ (r.a = "Read" /\ r.view \in {"within_radius", "within_annulus"}) =>
+            (Len(S[r.x].st) = 2 * Len(env.gpos) /\ Len(r.arg) = (IF r.view = "within_radius" THEN 3 ELSE 4))
 
 TraceNext ==
     /\ i <= Len(Trace)
@@ -159,7 +169,7 @@ TraceNext ==
             /\ S' = [s \in Slots |-> IF s \in {"a", "b"} THEN Obj(r.obs[s]) ELSE Dead]
        ELSE /\ IF ~ Guarded(r)
                THEN PrintT(ToJson([k |-> "reject", i |-> i, id |-> r.id, clauses |-> << "malformed-record" >>,
-                                   sig |-> r.cls \o ":" \o r.a \o ":malformed-record", want |-> << >>]))
+                                   sig |-> r.owner \o ":" \o r.a \o ":malformed-record", want |-> << >>]))
                ELSE LET P0 == StepOf(S, env, r, FALSE)
                         P == IF r.raised # "" THEN [P0 EXCEPT !.S = S] ELSE P0
                         bad == StepClauses(r, P)
